@@ -54,15 +54,23 @@ MANIFEST = dict(
          'run-time type name and the attribute names read are validated against the census. '
          'Pickling pair of Output (c09_pickle_state_roundtrip): __getstate__ / __setstate__ read off the source position by '
          'position; same field at every position, none twice, all data fields present => every field comes back with its '
-         'own value (the choice of the short form is only searched). '
+         'own value; the SHORT form (c09_pickle_short_form_export_equal): per optional field its disjuncts of the long-form '
+         'test, the restored constant and the declared type are read off the source, and for every value on which the '
+         'field\'s disjuncts fail the restored constant exports like the value (truthiness test of a float refuted: -0.0). '
+         'attrs field definitions (converter resolved to its run-time definition and classified path by path, validators, '
+         'defaults, factories, __attrs_post_init__) are read as part of the constructor a copy() calls; a converter that '
+         'copies on some paths only gives a conditional row. EntityFixup pickling (state_census) and Instance.from_entity '
+         '(c09_from_entity_shares_only: nothing of the entity but its read-only Output list reaches the Instance, the '
+         '$fixup values are copies) are censused. c09_property: the eight parts from generated-object hypotheses only. '
          'Operators: a run none of whose stores is tagged with an operand origin leaves every pre-existing object '
          'unchanged and returns only new objects; in-place operators leave everything separated from the receiver '
          'unchanged. Instancing: a collapse_one run with no template-tagged store or stored value leaves the template '
          'unchanged. Tie (every run): translators regenerate the five Gen tables from vmf.py, keyvalues.py, math.py, '
-         'instancing.py; 144 named instance obligations (per census label — 19 labels incl. Keyvalues_deepcopy / _pickle: '
+         'instancing.py; 152 named instance obligations (per census label — 20 labels incl. Keyvalues_deepcopy / _pickle, EntityFixup_pickle: '
          'copy_covers_fields, copy_fresh_mutables, copy_sources_match, copy_args_lossless, copy_export_equal, '
          'export_reads_are_fields; per kv branch; per operator family; collapse_*; table level incl. '
-         'all_classes_complete_and_independent, conditional_rows_are_joins, census_labels_of_a_class_agree, pickle_state_*:Output); census vs run-time identities, '
+         'all_classes_complete_and_independent, conditional_rows_are_joins, census_labels_of_a_class_agree, pickle_state_*:Output, '
+         'pickle_short_form_restores_export_equal:Output, instance_from_entity_shares_only_outputs); census vs run-time identities, '
          'argument flows vs the real constructors on boundary values, export reads vs traced attribute reads, operator '
          'rows vs real calls, kv model vs implementation; exported real object graphs certified in the kernel (separation; '
          'census rows: independence premises and completeness premises). Search: identity walk, export equality modulo IDs, random in-place mutation histories on either '
@@ -77,7 +85,11 @@ MANIFEST = dict(
          'attribute names read) per node; label, field order, arity and masks are derived / validated in the kernel: '
          'certificate:typed_nodes_validated; trusted there: type(o).__name__, getattr, the walker); CPython\'s generic copy '
          'protocol for a slot class without hooks (Keyvalues_deepcopy / _pickle rows; decided on real heaps by the row '
-         'certificates); the normalisation pre-pass of the copy translator (alias '
+         'certificates); pickle makes every object below the state new (EntityFixup_pickle row, decided on real unpickled '
+         'heaps); the abstraction of field values to the classes of SM/StorePickleShort.v (None / empty / non-empty string, '
+         '+0.0 / -0.0 / other float, every integer) and "the export writes a float with :g"; attrs generates the constructor '
+         'from the field definitions as documented (converter, then validator, then __attrs_post_init__); '
+         'the normalisation pre-pass of the copy translator (alias '
          'locals, loop-append = comprehension, single-return helpers inlined, guard clause = if/else ...: each rewrite is '
          'exact by construction, unknown shapes stay fail-closed); the flow modes as value functions (flow_fun); '
          'and the reading of a census row as its heap meaning (how_sem / how_complete / tstep / cstep: '
@@ -93,7 +105,7 @@ MANIFEST = dict(
 
 IMPORTS = ['Coq.Lists.List', 'Coq.Bool.Bool', 'Coq.ZArith.ZArith', 'Coq.Strings.String', 'SV.SM.Store', 'SV.SM.StoreCert', 'SV.SM.StorePickleShort',
            'SV.SM.StoreCopy', 'SV.SM.StoreCopySrc', 'SV.SM.StoreCopyExport', 'SV.SM.StoreCopyFlow', 'SV.SM.StoreCopyWholeProofs', 'SV.SM.StoreRowCert', 'SV.SM.StoreExportCert', 'SV.SM.StoreTypedLabels', 'SV.SM.StoreCondRow', 'SV.SM.StorePickleState', 'SV.SM.KvAdd', 'SV.SM.KvAddFresh',
-           'SV.SM.OpPurity', 'SV.SM.CollapseCensus', 'SV.Gen.CopyCensus_gen', 'SV.Gen.CopyExportReads_gen',
+           'SV.SM.OpPurity', 'SV.SM.CollapseCensus', 'SV.SM.InstanceFromEntity', 'SV.Gen.CopyCensus_gen', 'SV.Gen.CopyExportReads_gen',
            'SV.Gen.C09OpCensus_gen', 'SV.Gen.C09Collapse_gen', 'SV.Props.C09']
 CORPUS = hc.VERIF / 'corpus' / 'C09'
 
@@ -1650,6 +1662,12 @@ def run(ck: Ck) -> None:
     ck.assumptions.append('copy.deepcopy / pickle of a slot class that defines none of the copy-protocol hooks (Keyvalues today: checked '
                           'by the translator, fail-closed) builds a new object and fills every slot with a deep copy / the unpickled '
                           'value of the original slot (CPython copyreg); the resulting rows are decided on real heaps by the row certificates')
+    ck.assumptions.append('pickle serialises the state __getstate__ returns, so every object below it comes back new (row HDeep of '
+                          'EntityFixup_pickle; decided on real unpickled heaps by the row certificates); the short form of Output\'s '
+                          'state is modelled over value classes (None / empty / non-empty string, +0.0 / -0.0 / other float, every '
+                          'integer) and "the export writes a float with :g" (SM/StorePickleShort.v)')
+    ck.assumptions.append('attrs generates the constructor from the field definitions as documented: converter, then validator, then '
+                          '__attrs_post_init__; a default value is one object shared by all instances, a factory is called per instance')
     ck.assumptions.append('export is a function of the data fields it reads (export_reads census, static over-approximation '
                           'of the traced reads); IDs and the map back pointer are masked in the export comparison')
     ck.assumptions.append('the map back pointer (Entity.map, Solid.map, Side.map, VisGroup.vmf ...) is context: mutations '
@@ -1706,6 +1724,9 @@ def run(ck: Ck) -> None:
         obs['collapse_only_copies_enter_target'] = 'collapse_only_copies_enter collapse_enters'
         obs['collapse_copies_are_censused'] = ('collapse_copies_censused collapse_copies (List.map fst all_census) && '
                                                'Nat.eqb (List.length collapse_copies) %d' % len(cside.get('copies', [])))
+        obs['instance_from_entity_shares_only_outputs'] = (
+            'from_entity_shares_only ("outputs"%%string :: nil) instance_from_entity && from_entity_copies "fixup"%%string instance_from_entity && '
+            'Nat.eqb (List.length instance_from_entity) %d' % len(cside.get('from_entity', [])))
         obs['collapse_census_size'] = 'Nat.leb 20 (List.length collapse_writes) && Nat.leb 10 (List.length collapse_enters)'
         obs['all_classes_export_ok'] = 'all_export_ok'
         obs['all_sources_present'] = 'Nat.eqb (List.length all_sources) %d && all_sources_match' % len(side.get('classes', []))
@@ -1800,6 +1821,7 @@ def run(ck: Ck) -> None:
             ck.explain(f'instance:{b}_branch_appends_copy')
     if any_key('copy-incomplete:Output:', 'copy-raised:Output:'):
         ck.explain('instance:pickle_state_')
+        ck.explain('instance:pickle_short_form_')
     if any_key('copy-incomplete:'):
         ck.explain('correspondence:flows_vs_runtime')
         ck.explain('instance:all_sources_present')
@@ -1821,6 +1843,7 @@ def run(ck: Ck) -> None:
         ck.explain('instance:collapse_never_writes_template')
         ck.explain('instance:collapse_only_copies_enter_target')
         ck.explain('instance:collapse_copies_are_censused')
+        ck.explain('instance:instance_from_entity_shares_only_outputs')
     if any_key('operand-changed:', 'operator-returns-operand:', 'op-census-row:'):
         for fam in ('Vec', 'Angle', 'Matrix'):
             ck.explain(f'instance:ops_store_nothing_to_operands:{fam}')
